@@ -1379,6 +1379,9 @@ class Engine:
             env2['old'] = Namespace({pn: v0})
             self.assumptions_used.add('instance of the proved clause %s of %s' % (cl, cands[0].split(':')[1]))
             return S.vbool(self.spec_formula(ast.parse(c2.ensures[cl], mode='eval').body, env2, path, cands[0].split(':')[0]))
+        if name == 'hier_names':
+            # the names a nested iteration of the sub-graph yields (all blocks and regions inside it, at every depth)
+            return V(('set', T_NAME), ufun('hier_names', z3.IntSort(), S.sort_of(('set', T_NAME)))(E(0).t))
         if name == 'sub_depth':
             return S.vint(ufun('sub_depth', z3.IntSort(), z3.IntSort())(E(0).t))
         if name == 'graph_at_entry':
@@ -2351,8 +2354,29 @@ class Engine:
         if isinstance(st.value, ast.Yield):
             v = self.evaluator().ev(st.value.value, path, False)
             cur = path.env['_yielded']
+            if self.c.yield_check:
+                self.add_obligation(path, 'yield-item', ast.unparse(st.value),
+                                    self.spec_formula(ast.parse(self.c.yield_check, mode='eval').body, dict(path.env, it=v), path))
+            if self.c.yield_key is not None:
+                v = S.pair_get(v, self.c.yield_key)
             self.add_obligation(path, 'yield-once', ast.unparse(st.value), Not(Select(cur.t, v.t)))
             path.env['_yielded'] = V(cur.ty, Store(cur.t, v.t, True))
+            return [(path, None)]
+        if isinstance(st.value, ast.YieldFrom):
+            # `yield from <sub-graph>`: the items of the nested iteration (this same generator on the sub-graph, used through
+            # its contract): the ghost set grows by hier_names(sub), none of which may have been yielded before
+            sub = self.evaluator().ev(st.value.value, path, False)
+            if not (isinstance(sub, V) and sub.ty == S.T_SUB and self.c.yield_key is not None):
+                raise Unsupported('yield from')
+            cur = path.env['_yielded']
+            hn = ufun('hier_names', z3.IntSort(), S.sort_of(cur.ty))(sub.t)
+            x = z3.FreshConst(S.sort_of(cur.ty[1]), 'yx')
+            self.add_obligation(path, 'yield-once', ast.unparse(st.value), ForAll([x], Implies(Select(hn, x), Not(Select(cur.t, x)))))
+            r = S.fresh(cur.ty, 'yielded')
+            body_ = Select(r.t, x) == Or(Select(cur.t, x), Select(hn, x))
+            for pat in (Select(r.t, x), Select(hn, x)) + ((Select(cur.t, x),) if z3.is_const(cur.t) else ()):
+                path.hyps.append(S.forall_p([x], body_, [pat]))
+            path.env['_yielded'] = r
             return [(path, None)]
         self.evaluator().ev(st.value, path, False)
         return [(path, None)]
@@ -2402,7 +2426,9 @@ class Engine:
             val = ev.ev(v, path, False)
             if isinstance(val, tuple) and val[0] in ('emptyseq', 'emptyset', 'emptydict', 'emptytmap'):
                 val = self.typed_empty(tname, None)
-        if isinstance(val, V) and tname is not None and val.ty[0] in ('seq', 'block', 'dict') \
+        small_literal = isinstance(val, V) and val.ty[0] == 'seq' and (S.literal_elements(val) or [0] * 9).__len__() <= 2 \
+            and all(self.term_size(e_) <= 8 for e_ in (S.literal_elements(val) or []))
+        if isinstance(val, V) and tname is not None and val.ty[0] in ('seq', 'block', 'dict') and not small_literal \
                 and not z3.is_const(val.t) and self.term_size(val.t) > int(os.environ.get('PYVC_LET', '3')):
             # let-abstraction: name a large term (keeps later formulas and patterns small)
             c = S.fresh(val.ty, 'let_' + tname)
@@ -2557,8 +2583,9 @@ class Engine:
 
     def st_Try(self, st, path):
         # only: try: <one simple statement> except <E>: <handler> [finally: ...]
-        if len(st.body) != 1 or len(st.handlers) != 1 or st.orelse:
+        if len(st.handlers) != 1 or st.orelse:
             raise Unsupported('try form')
+        multi = len(st.body) != 1
         h = st.handlers[0]
         types = [h.type.id] if isinstance(h.type, ast.Name) else None
         if types is None:
@@ -2570,6 +2597,8 @@ class Engine:
         finally:
             conds = self.catch['conds']
             self.catch = None
+        if multi and conds:
+            raise Unsupported('try body of several statements one of which can raise the caught exception')
         ok = And(*conds) if conds else BoolVal(True)
         res = []
         for p, o in outs:
